@@ -17,6 +17,7 @@ import (
 	"io/ioutil"
 	"math/rand"
 	"os"
+	"runtime/debug"
 	"runtime/pprof"
 	"sort"
 	"strings"
@@ -42,7 +43,7 @@ func (w *world) apply(o op) (a applied) {
 	a.stores = map[uint64]bool{}
 	defer func() {
 		if x := recover(); x != nil {
-			a.fail = &failure{Class: "panic:" + o.Kind + "-region", What: fmt.Sprintf("pd panicked in %s: %v", o.Kind, x)}
+			a.fail = &failure{Class: "panic:" + o.Kind + "-region", What: fmt.Sprintf("pd panicked in %s: %v", o.Kind, x), Got: tailStack()}
 		}
 	}()
 	switch o.Kind {
@@ -132,6 +133,32 @@ func (w *world) apply(o op) (a applied) {
 		a.shape = fmt.Sprintf("remove,peers%d,pending%d", len(x.spec.Peers), minInt(len(x.spec.Pending), 1))
 	}
 	return
+}
+
+func tailStack() string {
+	st := string(debug.Stack())
+	if len(st) > 3000 {
+		st = st[:3000]
+	}
+	return st
+}
+
+func sizeClass(n int) string {
+	switch {
+	case n <= 2:
+		return "000-002"
+	case n <= 7:
+		return "003-007"
+	case n <= 15:
+		return "008-015"
+	case n <= 40:
+		return "016-040"
+	case n <= 127:
+		return "041-127"
+	case n <= 400:
+		return "128-400"
+	}
+	return "401+"
 }
 
 func samePeers(a, b []peerSpec) bool {
@@ -266,9 +293,10 @@ func (p *prober) near(w *world, a applied) []*probe {
 	}
 	s, e := p.randPair()
 	ps = append(ps, &probe{Kind: "scan", Start: s, End: e, Limit: p.rng.Intn(4)})
-	for st := uint64(1); st <= 8; st++ {
-		if a.stores[st] {
+	for st, k := uint64(1), 0; st <= 8; st++ {
+		if a.stores[st] && (k < 2 || len(w.m.es) < 100) { // large worlds: two of the touched stores
 			ps = append(ps, &probe{Kind: "storeset", Store: st})
+			k++
 		}
 	}
 	role, store, ranges := p.randTarget(w)
@@ -463,9 +491,7 @@ func runHistory(r *ev.Run, prof profile, seed int64, sample bool) bool {
 			r.Count("probe_"+k, v)
 		}
 		r.Count("histories_"+prof.Name, 1)
-		if int64(maxRegions) > r.Counter("max_live_regions") {
-			r.Count("max_live_regions", int64(maxRegions)-r.Counter("max_live_regions"))
-		}
+		r.Count("histories_peak_live_regions_"+sizeClass(maxRegions), 1)
 	}()
 	for n := 0; n < prof.Ops; n++ {
 		if len(queue) == 0 {
@@ -515,6 +541,7 @@ func runHistory(r *ev.Run, prof profile, seed int64, sample bool) bool {
 		if len(w.m.es) > maxRegions {
 			maxRegions = len(w.m.es)
 		}
+		w.count("ops_at_live_regions_"+sizeClass(len(w.m.es)), 1)
 		r.Distinct(prof.Name + "|" + a.shape + "|n" + fmt.Sprint(bucket(len(w.m.es))))
 	}
 	if sample {
@@ -609,7 +636,9 @@ func replay(r *ev.Run, path string) {
 	r.Distinct("replay|" + hr.Failure.Class)
 	r.Distinct("replay|ops")
 	if !ok {
-		r.Inconclusive("replay of %s did not reproduce %s", path, hr.Failure.Class)
+		// the recorded operations and the recorded query were evaluated faithfully: the oracle held
+		fmt.Printf("REPLAY property=C07 %s: %s not reproduced on this tree (oracle held on the recorded history)\n", path, hr.Failure.Class)
+		r.Count("replay_not_reproduced", 1)
 		return
 	}
 	hr.Failure, hr.Model = g, descEntries(w.m.sorted())
@@ -623,36 +652,37 @@ func profiles(r *ev.Run, rng *rand.Rand) []profile {
 			out = append(out, f())
 		}
 	}
+	density := func() float64 { return []float64{0.15, 0.4, 0.6, 0.8}[rng.Intn(4)] }
 	near := r.Pick(4, 1) // lookups around the touched range: quick every 4th operation, thorough every one
 	small := func(ops, full, complete int) func() profile {
 		return func() profile {
-			return profile{Name: "small", Keys: 6 + rng.Intn(19), MaxID: 40, Ops: ops, Prefill: rng.Intn(3) == 0, Stores: 8,
+			return profile{Name: "small", Keys: 6 + rng.Intn(19), MaxID: 40, Ops: ops, Prefill: rng.Intn(3) == 0, Stores: 8, Density: density(),
 				NearEach: near, FullEach: full, CompleteEach: complete}
 		}
 	}
 	medium := func(ops, full, complete int) func() profile {
 		return func() profile {
 			k := 40 + rng.Intn(80)
-			return profile{Name: "medium", Keys: k, MaxID: uint64(k + 30), Ops: ops, Prefill: rng.Intn(2) == 0, Stores: 4 + rng.Intn(5),
+			return profile{Name: "medium", Keys: k, MaxID: uint64(k + 30), Ops: ops, Prefill: rng.Intn(2) == 0, Stores: 4 + rng.Intn(5), Density: density(),
 				NearEach: near, FullEach: full, CompleteEach: complete}
 		}
 	}
 	large := func(ops, full, complete int) func() profile {
 		return func() profile {
 			// few stores: the per-store sub-indexes then hold hundreds of regions (multi-level btree)
-			k := 300 + rng.Intn(600)
-			return profile{Name: "large", Keys: k, MaxID: uint64(k + 100), Ops: ops, Prefill: true, Stores: 2 + rng.Intn(3),
+			k := 300 + rng.Intn(400)
+			return profile{Name: "large", Keys: k, MaxID: uint64(k + 100), Ops: ops, Prefill: true, Stores: 2 + rng.Intn(3), Density: 0.6,
 				NearEach: near, FullEach: full, CompleteEach: complete}
 		}
 	}
 	if r.Thorough() {
-		add(50, small(20000, 100, 2000))
-		add(8, medium(20000, 200, 4000))
-		add(3, large(20000, 400, 5000))
+		add(20, small(20000, 100, 2000))
+		add(4, medium(20000, 200, 4000))
+		add(2, large(20000, 400, 5000))
 	} else {
-		add(170, small(2000, 50, 500))
-		add(24, medium(2000, 100, 1000))
-		add(6, large(2500, 250, 1250))
+		add(120, small(2000, 50, 500))
+		add(16, medium(2000, 100, 1000))
+		add(4, large(2000, 250, 1000))
 	}
 	rng.Shuffle(len(out), func(i, j int) { out[i], out[j] = out[j], out[i] })
 	return out
@@ -660,10 +690,10 @@ func profiles(r *ev.Run, rng *rand.Rand) []profile {
 
 func main() {
 	r := ev.New("C07", "exploration")
-	r.Rule("one case = one operation of a random history applied to core.BasicCluster and to the slice model, followed by the comparison of pd's answers with linear scans (every operation: counts, per-store counters/sizes of the touched stores, lookups around the touched range, one random-pick probe; periodically: every probe key, every boundary pair, every store, every cached region). Histories: region ids 1..40 over 6-24 boundary keys (small), ~100 keys (medium), 250-750 keys with a fully covered key space (large, multi-level index); stores 1..8, voter/learner roles, leader or none, pending/down peers, sizes 0..1000. distinct = profile x operation kind x number of displaced regions x which of {range, peers, leader, pending, size} changed x unbounded/no-leader/pending flags x log2(live regions). btree sub-check: distinct = degree x live trees x size bucket x levels x operation.")
+	r.Rule("one case = one operation of a seeded random history applied to core.BasicCluster and to the slice model, followed by the comparison of pd's answers with linear scans. Every operation: region counts, average size, per-store counters/sizes of every touched store; every operation (thorough) or every 4th (quick): lookups, overlap/adjacent/scan queries around the touched range, store region sets, one random-pick probe; periodically: sampled and complete sweeps (every probe key = boundary key, its predecessor/successor byte strings and the empty key; every boundary pair for alphabets up to 25 keys; every store; every cached region; random-pick soundness and coverage). Histories: region ids 1..40 over 6-24 boundary keys on 8 stores (small), 40-120 keys on 4-8 stores (medium), 300-700 keys with a fully covered key space on 2-4 stores (large: per-store sub-indexes are multi-level btrees); target densities 0.15-0.8 regions per boundary interval; voter/learner roles, leader or none, pending/down peers, sizes 0..1000, regions built by NewRegionInfo or RegionFromHeartbeat. distinct = profile x operation kind x number of displaced regions x which of {range, peers, leader, pending, size} changed x unbounded/no-leader/pending flags x log2(live regions). btree sub-check: random insert/replace/delete/delete-min/max/clone/clear histories for degrees 2..64 against a sorted slice; distinct = degree x live trees x size bucket x levels x operation.")
 	r.Assume("core.BasicCluster and its RegionsInfo are driven directly (PutRegion / RemoveRegion with the region's current information, the only way the code base removes); no heartbeat admission logic is involved (that is C06)")
 	r.Assume("generated regions stay inside the zone the statement defines: start < end or unbounded end, at most one peer per store, the leader is a voter of the region or absent, pending and down peers are peers of the region; inverted query ranges and 'adjacent' probes that partially overlap cached regions are not judged (skipped_ambiguous)")
-	r.Assume("a random pick 'within key ranges' means a region lying completely inside one of the ranges (the documented behaviour, asserted by the repository's own tests); a pick may return nothing; coverage: every member of a candidate set of size 1..8 must be drawn within 400*|set| draws (a miss has probability < 1e-15 per set for a uniform pick)")
+	r.Assume("a random pick 'within key ranges' means a region lying completely inside one of the ranges (the documented behaviour, asserted by the repository's own tests); a pick may return nothing; coverage: every member of a candidate set of size 1..8 must be drawn within 400*|set| draws (for a uniform pick over the index range a miss has probability < 1e-13 per set)")
 	r.Assume("pd's random picks use math/rand's global source, re-seeded by the harness per history; the reference model, its key order (bytewise) and the sorted-slice mirror of the btree are trusted")
 	if r.Replay != "" {
 		replay(r, r.Replay)
@@ -683,7 +713,14 @@ func main() {
 	}
 	btSeed := rng.Int63()
 	ok := true
+	if r.Thorough() || r.Shard == 0 {
+		// first, so that a broken index structure is named as such before region histories trip over it
+		ok = btreePhase(r, rand.New(rand.NewSource(btSeed)))
+	}
 	for i, prof := range profs {
+		if !ok {
+			break
+		}
 		if !r.Thorough() && r.Shards > 1 && i%r.Shards != r.Shard {
 			continue // quick tier split over processes (shards_quick): each takes a share of its own list
 		}
@@ -692,9 +729,6 @@ func main() {
 			break // one witness per run is enough; the state of that history has diverged
 		}
 		r.Count("histories", 1)
-	}
-	if ok && (r.Thorough() || r.Shard == 0) {
-		btreePhase(r, rand.New(rand.NewSource(btSeed)))
 	}
 	r.Floor(int64(r.Pick(20000, 200000)))
 	pprof.StopCPUProfile()
